@@ -66,7 +66,7 @@ def _validator(cls, cname, fn_expr):
 
 def read_rules(repo):
     rules = []
-    for p in sorted(glob.glob(os.path.join(repo, "pymarkdown/plugins/rule_*.py"))):
+    for p in sorted([q for q in glob.glob(os.path.join(repo, "pymarkdown/plugins/*.py")) if not q.endswith("__init__.py")]):
         tree = ast.parse(open(p, encoding="utf-8").read())
         classes = [n for n in tree.body if isinstance(n, ast.ClassDef) and any(ast.unparse(b) == "RulePlugin" for b in n.bases)]
         if len(classes) != 1:
